@@ -83,7 +83,7 @@ def main():
         res['checks'] = {}
         for c in checks:
             t0 = time.time()
-            r = sh(['python3', os.path.join(VERIF, 'vcheck.py'), c, tier], env=dict(os.environ, VERIF_REPO=WT, VERIF_REPLAY_DIR='/tmp/seed_replays', VERIF_EVIDENCE_DIR='/tmp/seed_evidence', VERIF_JOBS=os.environ.get('VERIF_JOBS', '8')), cwd=VERIF)
+            r = sh(['python3', os.path.join(VERIF, 'vcheck.py'), c, tier], env=dict(os.environ, VERIF_REPO=WT, VERIF_REPLAY_DIR='/tmp/seed_replays_' + sid, VERIF_EVIDENCE_DIR='/tmp/seed_evidence_' + sid, VERIF_JOBS=os.environ.get('VERIF_JOBS', '8')), cwd=VERIF)
             viol = [l for l in r.stdout.splitlines() if l.startswith('VIOLATION')]
             detail = [l for l in r.stdout.splitlines() if l.startswith('   ')][:3]
             res['checks'][c] = {'exit': r.returncode, 'violations': viol[:5], 'detail': detail, 'tail': r.stdout.splitlines()[-1:] , 'wall_s': round(time.time() - t0, 1)}
@@ -101,7 +101,7 @@ def main():
     print(json.dumps({k: res.get(k) for k in ('seed', 'confirmed', 'demo_rc_unmodified', 'demo_rc_changed', 'suite_same_as_unmodified', 'detected_by')}))
     for c, v in res.get('checks', {}).items(): print(' ', c, v['exit'], v['violations'][:1], v['detail'][:1], v['tail'])
     # the replays written by the run belong to the patched tree, not to /repo: drop them
-    shutil.rmtree('/tmp/seed_replays', ignore_errors=True)
+    shutil.rmtree('/tmp/seed_replays_' + sid, ignore_errors=True); shutil.rmtree('/tmp/seed_evidence_' + sid, ignore_errors=True)
     return 0
 
 if __name__ == '__main__':
